@@ -377,6 +377,7 @@ theorem builderRun_foldl (acc : List Slot) (ops : List BuilderOp) :
     cases o with
     | push s => simp [List.foldl_cons, builderStep, specBuilder, ih]
     | pop => simp [List.foldl_cons, builderStep, specBuilder, ih]
+    | extend ds => simp [List.foldl_cons, builderStep, specBuilder, ih]
 
 theorem builderRun_spec (ops : List BuilderOp) : builderRun ops = specBuilder [] ops :=
   builderRun_foldl [] ops
